@@ -123,7 +123,7 @@ def set_single(w, cfg):
     th, log = _stub(w, cfg['pkg'], {kind: cfg['fail']})
     s, leaves = W.stream_on(w, 's', th, cfg['phase'], present=_present(cfg['pkg'], cfg['phase'], cfg['mode']))
     T0, P0 = s.T, s.P
-    pre = W.snapshot(s)
+    pre = W.total_by_CAS(s)
     value = w.real('value')
     try:
         setattr(s, prop, value)
@@ -131,12 +131,11 @@ def set_single(w, cfg):
         # allowed only when there is no other phase to try (solid): the solver's error is passed on
         w.ensure('solver failure is passed on only for phases without alternative', cfg['phase'] not in ('l', 'g'))
         w.ensure('failed assignment leaves T, P and the flows alone',
-                 w.And(w.eq(s.T, T0), w.eq(s.P, P0), _flows_equal(w, pre['flows'], W.snapshot(s)['flows'])))
+                 w.And(w.eq(s.T, T0), w.eq(s.P, P0), _flows_equal(w, pre, W.total_by_CAS(s))))
         return
     back = _getter(s, prop)
     w.ensure(f'reading {prop} back returns the assigned value', w.eq(back, value))
-    post = W.snapshot(s)
-    w.ensure('flows unchanged', _flows_equal(w, pre['flows'], post['flows']))
+    w.ensure('flows unchanged', _flows_equal(w, pre, W.total_by_CAS(s)))
     w.ensure('P unchanged', w.eq(s.P, P0))
     if cfg['fail'] == 0:
         w.ensure('phase unchanged when the solve succeeds', s.phase == cfg['phase'])
